@@ -348,6 +348,9 @@ func (r *Runner) loopEnter(st *State, f *Frame, hdr *ssa.BasicBlock) {
 		}
 	}
 	r.autoInvariants(st, f, hdr)
+	if ls != nil && len(ls.Iter) > 0 {
+		lr.headShadow = r.shadow(st)
+	}
 	f.loops[hdr.Index] = lr
 	// locks held across the loop head: the head becomes the reference point of two-state clauses
 	for k := range st.held {
@@ -485,6 +488,14 @@ func (r *Runner) loopBackEdge(st *State, f *Frame, hdr *ssa.BasicBlock, lr *loop
 	for _, c := range ls.Invs {
 		g := env.EvalBool(c.E, st)
 		r.oblige(st, "inv-step", fmt.Sprintf("loop%d.%s", ord, c.Label), g, pos)
+	}
+	if lr.headShadow != nil {
+		ienv := r.loopEnv(st, f)
+		ienv.old = lr.headShadow
+		for _, c := range ls.Iter {
+			g := ienv.EvalBool(c.E, st)
+			r.oblige(st, "iter", fmt.Sprintf("loop%d.%s", ord, c.Label), g, pos)
+		}
 	}
 	if lr.hasDecr {
 		d := env.intOf(env.EvalVal(ls.Decr, st))
